@@ -103,6 +103,21 @@ def run(tier, res, replay=None):
                         traces.append(tr)
                         res.add_eval()
                         res.distinct((n, nd, se2, wire, k, order))
+    # a second bundle with the same ring and duct counts but other
+    # dimensions, built later in the same process: nothing of the first may
+    # be carried over
+    for n in ns[:4]:
+        for nd in (1, 2, 3):
+            dims = bs.random_dims(rng, n, nd)
+            se2 = (n + nd) % 2 == 0
+            wire = 'counterclockwise' if n % 2 == 0 else 'clockwise'
+            tr = build_trace(dassh, n, nd, dims, se2, wire,
+                             {'se2': int(se2), 'wire': wire, 'again': 1,
+                              'dims': [float(f'{x:.9g}') for x in dims[:4]]
+                              + [[float(f'{x:.9g}') for x in dims[4]]]})
+            traces.append(tr)
+            res.add_eval()
+            res.distinct((n, nd, se2, wire, 'again'))
     # shard traces over TLC processes (one JVM per shard)
     shards = [traces[i::common.NCPU] for i in range(common.NCPU)]
     shards = [s for s in shards if s]
